@@ -3,6 +3,7 @@
 #include <boost/msm/back/state_machine.hpp>
 #include <boost/msm/back11/state_machine.hpp>
 #include <boost/msm/backmp11/state_machine.hpp>
+#include <boost/msm/backmp11/favor_compile_time.hpp>
 #include "Backmp11Adapter.hpp"
 #include <boost/msm/front/state_machine_def.hpp>
 #include <boost/msm/front/functor_row.hpp>
@@ -10,11 +11,12 @@ namespace msm = boost::msm;
 namespace mpl = boost::mpl;
 namespace
 {
-struct f_go {}; struct f_err {}; struct f_halt {}; struct f_resume {}; struct f_in {}; struct f_deeper {};
+struct f_go {}; struct f_err {}; struct f_halt {}; struct f_resume {}; struct f_in {}; struct f_deeper {}; struct f_ping {};
 struct f_A {}; struct f_B {}; struct f_C {}; struct f_D {};
 template <class FE> struct f_back { typedef msm::back::state_machine<FE> type; };
 template <class FE> struct f_back11 { typedef msm::back11::state_machine<FE> type; };
 template <class FE> struct f_mp11 { typedef msm::backmp11::state_machine_adapter<FE> type; };
+template <class FE> struct f_mp11_fct { typedef msm::backmp11::state_machine_adapter<FE, msm::backmp11::favor_compile_time> type; };
 template <template <class> class Back>
 struct f_machines
 {
@@ -45,7 +47,12 @@ struct f_machines
         struct S1 : st { typedef mpl::vector<f_A> flag_list; };
         struct S2 : st { typedef mpl::vector<f_A, f_B> flag_list; };
         struct Ok : st { typedef mpl::vector<f_A> flag_list; };
-        struct Halted : public msm::front::interrupt_state<f_resume> { typedef mpl::vector<f_B> flag_list; };
+        // two end-interrupt events; the second one has no row in the machine's transition table, only an internal row of the state
+        struct Halted : public msm::front::interrupt_state<mpl::vector<f_resume, f_ping> >
+        {
+            typedef mpl::vector<f_B> flag_list;
+            struct internal_transition_table : mpl::vector<msm::front::Internal<f_ping, msm::front::none, msm::front::none> > {};
+        };
         struct Dead : public msm::front::terminate_state<> { typedef mpl::vector<f_B, f_A> flag_list; };
         typedef mpl::vector<S1, Ok> initial_state;
         struct transition_table : mpl::vector<
@@ -72,13 +79,14 @@ template <class M> bool f_query_mp11(M& m)
 template <class M> void f_drive(M& m)
 {
     m.start(); m.process_event(f_go()); m.process_event(f_in()); m.process_event(f_in()); m.process_event(f_deeper());
-    m.process_event(f_halt()); m.process_event(f_resume()); m.process_event(f_err());
+    m.process_event(f_halt()); m.process_event(f_ping()); m.process_event(f_resume()); m.process_event(f_err());
 }
 void f_use()
 {
     { f_machines<f_back>::Top m; f_drive(m); (void)f_query_back(m); m.stop(); }
     { f_machines<f_back11>::Top m; f_drive(m); (void)f_query_back(m); m.stop(); }
     { f_machines<f_mp11>::Top m; f_drive(m); (void)f_query_mp11(m); m.stop(); }
+    { f_machines<f_mp11_fct>::Top m; f_drive(m); (void)f_query_mp11(m); m.stop(); }
 }
 }
 int main() { return 0; }
